@@ -399,6 +399,10 @@ func (n *Net) Dial(addr string, timeout time.Duration) (*Conn, error) {
 			timeout = time.Hour
 		}
 		time.Sleep(timeout)
+		// several such dials time out at the same instant: each goes back under
+		// the controller before it runs on (otherwise they run side by side
+		// until their next scheduling point)
+		verifsim.Yield("net/blackhole-timeout")
 		return nil, fmt.Errorf("dial tcp %s: i/o timeout", addr)
 	}
 	if l == nil || refuse {
